@@ -389,6 +389,7 @@ type SpecFunc struct {
 	Body   Expr // nil => uninterpreted
 	Text   string
 	Pkg    string
+	Opaque bool // emitted as declare-fun + triggered defining axiom
 }
 
 type Lemma struct {
